@@ -92,3 +92,18 @@ Proof. exact lock_code_history. Qed.
 Example C09_code_initial : lock_rel zero_lockMask (locks_init 256).
 Proof. exact zero_lock_rel. Qed.
 Print Assumptions C09_code_history.
+
+(** The same for the `tiny` build (64 lock bits): [Gen/GoLocks64.v] is the translation of the
+    same source files under the build tag, [Proofs/LockTie64.v] the tie to the model's lock
+    state with 64 bits. *)
+From Arche Require Gen.GoLocks64 Proofs.LockTie64.
+Theorem C09_code_history_tiny : forall ops g l held frees,
+  LockTie64.lock_rel g l -> lock_inv 64 l held frees -> Forall LockTie64.lop_ok ops ->
+  match LockTie64.ml_run l ops with
+  | Ret (l', outs) => exists g', LockTie64.gl_run g ops = Ret (g', map LockTie64.lconv outs) /\ LockTie64.lock_rel g' l'
+  | _ => LockTie64.gl_run g ops = Panicked
+  end.
+Proof. exact LockTie64.lock_code_history. Qed.
+Example C09_code_initial_tiny : LockTie64.lock_rel GoLocks64.zero_lockMask (locks_init 64).
+Proof. exact LockTie64.zero_lock_rel. Qed.
+Print Assumptions C09_code_history_tiny.
